@@ -544,6 +544,11 @@ class FnTr(object):
                 if callee not in getattr(self.u, "external_pure", ()):
                     raise Unsupported("%s.%s() is not available as a pure translated function" % (f.value.id, f.attr))
                 return self.bind("%s %s %s" % (callee, self.expr(f.value), " ".join(self.expr(a) for a in e.args)))
+            if isinstance(f.value, ast.Attribute) and (f.value.attr, f.attr) in getattr(self.u, "attr_pure_methods", {}):
+                callee = self.u.attr_pure_methods[(f.value.attr, f.attr)]
+                if callee not in getattr(self.u, "external_pure", ()):
+                    raise Unsupported("%s is not available as a pure translated function" % callee)
+                return self.bind("%s %s %s" % (callee, self.expr(f.value), " ".join(self.expr(a) for a in e.args)))
             if f.attr == "encode" and len(e.args) == 1 and const_fold_str(e.args[0]) in ("utf8", "utf-8"):
                 return self.bind("Py.encodeUtf8 %s" % self.expr(f.value))
             if f.attr == "get" and len(e.args) == 1:
@@ -950,6 +955,42 @@ def read_route_snippet(read_fn):
     return None
 
 
+def read_drain_snippets(read_fn):
+    """the store-draining loops of `_AdbIOManager.read` -- `x = F; while x: <body>; x = F` (checked: the statement before the loop and the last statement of its body are the
+    same assignment) -- each as ONE iteration `x = F; if x: <body>; return ('again', None), self` / `return ('empty', None), self`; a `return v` inside becomes `('return', v), self`"""
+    import copy as _copy
+    out = []
+    for n in ast.walk(read_fn):
+        body = getattr(n, "body", None)
+        if not isinstance(body, list):
+            continue
+        for i, st in enumerate(body):
+            if isinstance(st, ast.While) and i > 0 and isinstance(body[i - 1], ast.Assign) and isinstance(st.test, ast.Name) and not st.orelse and st.body \
+                    and isinstance(st.body[-1], ast.Assign) and ast.dump(st.body[-1]) == ast.dump(body[i - 1]) \
+                    and len(body[i - 1].targets) == 1 and isinstance(body[i - 1].targets[0], ast.Name) and body[i - 1].targets[0].id == st.test.id:
+                rw = _EffRewrite(set())
+                inner = []
+                for x in _copy.deepcopy(st.body[:-1]):
+                    r = rw.visit(x)
+                    inner += r if isinstance(r, list) else [r]
+
+                class _Tag(ast.NodeTransformer):
+                    def visit_Return(self, node):
+                        return ast.Return(value=ast.Tuple(elts=[ast.Tuple(elts=[ast.Constant(value="return"), node.value if node.value is not None else ast.Constant(value=None)], ctx=ast.Load()),
+                                                                ast.Name(id="self", ctx=ast.Load())], ctx=ast.Load()))
+
+                    def visit_FunctionDef(self, node):
+                        return node
+                inner = [_Tag().visit(x) for x in inner]
+                if any(isinstance(x, (ast.Break, ast.Continue, ast.While, ast.For)) for y in inner for x in ast.walk(y)):
+                    continue
+
+                def tagged(t):
+                    return ast.Return(value=ast.Tuple(elts=[ast.Tuple(elts=[ast.Constant(value=t), ast.Constant(value=None)], ctx=ast.Load()), ast.Name(id="self", ctx=ast.Load())], ctx=ast.Load()))
+                out.append([_copy.deepcopy(body[i - 1]), ast.If(test=_copy.deepcopy(st.test), body=inner + [tagged("again")], orelse=[]), tagged("empty")])
+    return out
+
+
 class _LoopRewrite(ast.NodeTransformer):
     """Turns the body of a `while` loop into a function of the loop state and of the RESULTS of the effects it performs:
     `self._transport.bulk_read/bulk_write(...)` -> parameter eff0, eff1, ... (their argument tuples are kept), `time.time()` -> parameter `now`,
@@ -1354,6 +1395,14 @@ def build_units(repo):
                                                                               kwonlyargs=[], kw_defaults=[], defaults=[]),
                                            body=snip if snip else [ast.Global(names=["routing_block_not_found"])], decorator_list=[])
                     u.add_function("", node, lean="%s_io_read_route" % cls, params=[a.arg for a in node.args.args])
+                    u.attr_methods[("_packet_store", "get")] = "AdbPacketStore_get"
+                    u.attr_pure_methods = {("_packet_store", "find"): "AdbPacketStore_find", ("_packet_store", "find_allow_zeros"): "AdbPacketStore_find_allow_zeros"}
+                    drains = read_drain_snippets(m)
+                    for k in range(2):
+                        node = ast.FunctionDef(name="read__drain%d" % k, args=ast.arguments(posonlyargs=[], args=[ast.arg(arg=a) for a in ("self", "expected_cmds", "adb_info", "allow_zeros")],
+                                                                                     kwonlyargs=[], kw_defaults=[], defaults=[]),
+                                               body=drains[k] if len(drains) == 2 else [ast.Global(names=["expected_two_store_draining_loops_found_%d" % len(drains)])], decorator_list=[])
+                        u.add_function("", node, lean="%s_io_read_drain%d" % (cls, k), params=[a.arg for a in node.args.args])
                 if m.name in ("_read_packet_from_device", "_send"):
                     tag = "%s_%s" % (cls, m.name.strip("_"))
                     try:
